@@ -161,11 +161,13 @@ var before = []mutant{
 	consMut("slot-window", func(w *world, h *hmsg, sm *specqbft.SignedMessage) bool { sm.Message.Height += 1000; return true }),
 	consMut("slot-window", func(w *world, h *hmsg, sm *specqbft.SignedMessage) bool { sm.Message.Height += 40; return true }),
 	consMut("slot-window", func(w *world, h *hmsg, sm *specqbft.SignedMessage) bool { sm.Message.Height -= 2000; return true }),
+	consMut("slot-window", func(w *world, h *hmsg, sm *specqbft.SignedMessage) bool { sm.Message.Height += 1 << 62; return true }), // 12 s x 2^62 wraps to 0
 	consMut("round-window", func(w *world, h *hmsg, sm *specqbft.SignedMessage) bool { sm.Message.Round = 0; return true }),
 	consMut("round-window", func(w *world, h *hmsg, sm *specqbft.SignedMessage) bool { sm.Message.Round = 40; return true }),
 	consMut("round-window", func(w *world, h *hmsg, sm *specqbft.SignedMessage) bool { sm.Message.Round += 9; return true }),
 	{"slot-window", func(w *world, h *hmsg) (string, []byte) { return w.partialMutant(h, 5000, 0) }},
 	{"slot-window", func(w *world, h *hmsg) (string, []byte) { return w.partialMutant(h, -5000, 0) }},
+	{"slot-window", func(w *world, h *hmsg) (string, []byte) { return w.partialMutant(h, 1<<62, 0) }},
 	{"signer-nonzero", func(w *world, h *hmsg) (string, []byte) { return w.partialMutant(h, 0, 1) }},
 	{"signer-in-committee", func(w *world, h *hmsg) (string, []byte) { return w.partialMutant(h, 0, 2) }},
 }
